@@ -45,9 +45,14 @@ ItemBase  == 1000
 \* the fixed library module m2 (text in the harness, ids here)
 LibValues == [a |-> 2001, c |-> 2002, A |-> 2003, C |-> 2004, k |-> 2005]   \* public values
 LibTypeT  == 2006                       \* m2 also declares `pub type T { W }`: same spelling as m1's own type
+LibTypeA  == 2007                       \* `pub type A { A(a: Int) C }`: the type A (the constructor A is LibValues.A)
+LibFieldA == 2008                       \* ... and its labelled field a
 LibPrivate == {"p", "Q"}                 \* private function p; constructor Q of the private type P
 LibModule == 2000                       \* the module itself (target of an accessor)
-ImportForms == {"none", "plain", "alias", "unq", "unqalias"}
+\* unqctor: `import m2.{A}` brings the CONSTRUCTOR A into the value namespace, not the type A;
+\* unqtype: `import m2.{type A}` brings the TYPE only; typealias: `import m2.{type T as L}` - the type m2.T under the
+\* name L (m1's own type T, if declared, is a different declaration with the original spelling)
+ImportForms == {"none", "plain", "alias", "unq", "unqalias", "unqctor", "unqtype", "typealias"}
 \* m1 may declare one record type  `type T { T ( a : Int , b : Int ) V ( a : Int , b : Int ) }`: the type T and the
 \* constructor T share a spelling but live in different namespaces; the fields are spelled like the value names and
 \* are common to both variants (Gleam allows `.a` only for such fields): a common field is ONE declaration, declared
@@ -86,10 +91,16 @@ ItemId(name) ==
 Imported(name) ==
     IF imp = "unq" /\ name = "c" THEN LibValues.c
     ELSE IF imp = "unqalias" /\ name = "d" THEN LibValues.c
+    ELSE IF imp = "unqctor" /\ name = "A" THEN LibValues.A
     ELSE 0
 TypeItem == LET idx == {i \in 1..Len(items) : items[i].k = "type"} IN IF idx = {} THEN 0 ELSE CHOOSE i \in idx : TRUE
 HasType  == TypeItem # 0
 TypeBase == ItemBase + TypeItem
+\* the type namespace of m1: its own T, and what the import brings in
+TypeResolve(name) == IF name = "T" /\ HasType THEN TypeBase
+                     ELSE IF name = "A" /\ imp = "unqtype" THEN LibTypeA
+                     ELSE IF name = "L" /\ imp = "typealias" THEN LibTypeT
+                     ELSE 0
 \* constructors are values of the module scope; the type itself is in the type namespace only
 CtorId(name) == IF ~HasType THEN 0 ELSE IF name = "T" THEN TypeBase + CtorT ELSE IF name = "V" THEN TypeBase + CtorU ELSE 0
 ModuleValue(name) == IF ItemId(name) # 0 THEN ItemId(name) ELSE IF CtorId(name) # 0 THEN CtorId(name) ELSE Imported(name)
@@ -97,7 +108,7 @@ ModuleValue(name) == IF ItemId(name) # 0 THEN ItemId(name) ELSE IF CtorId(name) 
 Resolve(name) == IF Local(name) # 0 THEN Local(name) ELSE ModuleValue(name)
 
 RefNames == Names \cup (IF imp = "unq" THEN {"c"} ELSE IF imp = "unqalias" THEN {"d", "c"} ELSE {"c"})
-Visible  == {n \in Names \cup SpareNames \cup {"c", "d", "T", "V"} : Resolve(n) # 0}
+Visible  == {n \in Names \cup SpareNames \cup {"c", "d", "T", "V", "A"} : Resolve(n) # 0}
 Accessor == IF imp = "plain" THEN "m2" ELSE IF imp = "alias" THEN "q" ELSE ""
 
 \* pop frames down to and including the innermost mark
@@ -135,6 +146,9 @@ Prods(h) ==
            P(1, "tuple", <<OPEN("TUPLE"), T("#"), T("("), NT("EXPR"), T(","), NT("EXPR"), T(")"), CLOSE>>),
            P(1, "qualified", <<NT("QUALIFIED")>>),
            P(1, "ctor", <<NT("CTOR")>>),
+           P(1, "ctor_labelled", <<NT("NEEDACC"), OPEN("EXPR_CALL"), OPEN("FIELD_ACCESS"), NT("QCTORA"), CLOSE, T("("), Sym("LIBLABEL", "a", 0), T(":"), NT("EXPR"), T(")"), CLOSE>>),
+           P(1, "ctor_unq", <<OPEN("EXPR_CALL"), NT("UNQCTORA"), T("("), T("1"), T(")"), CLOSE>>),
+           P(1, "ctor_unq_labelled", <<OPEN("EXPR_CALL"), NT("UNQCTORA"), T("("), Sym("UNQLIBLABEL", "a", 0), T(":"), NT("EXPR"), T(")"), CLOSE>>),
            \* the module's own record type (only when it is declared)
            P(1, "own_ctor_labelled", <<NT("NEEDTYPE"), OPEN("EXPR_CALL"), Sym("OWNCTOR", "T", 0), T("("), Sym("LABEL", "b", 0), T(":"), NT("EXPR"), T(","),
                                       Sym("LABEL", "a", 0), T(":"), NT("EXPR"), T(")"), CLOSE>>),
@@ -165,6 +179,7 @@ Prods(h) ==
            P(1, "ptuple", <<T("#"), T("("), NT("PAT"), T(","), NT("PAT"), T(")")>>),
            P(1, "plist", <<T("["), NT("PAT"), T(","), T(".."), NT("SPREADBINDER"), T("]")>>),
            P(1, "pctor", <<NT("PCTOR"), T("("), NT("PAT"), T(")")>>),
+           P(1, "pctor_labelled", <<NT("NEEDACC"), NT("PQCTORA"), T("("), Sym("LIBLABEL", "a", 1), T(":"), NT("PAT"), T(")")>>),
            P(1, "pconcat", <<T("\"s\""), T("<>"), NT("BINDER")>>),
            P(1, "p_own_ctor", <<NT("NEEDTYPE"), Sym("OWNCTOR", "T", 1), T("("), Sym("LABEL", "a", 1), T(":"), NT("PAT"), T(","), T(".."), T(")")>>),
            P(1, "p_own_ctor2", <<NT("NEEDTYPE"), Sym("OWNCTOR", "V", 1), T("("), Sym("LABEL", "b", 1), T(":"), NT("PAT"), T(","), T(".."), T(")")>>),
@@ -197,7 +212,11 @@ Header == /\ phase = "header"
                                     [] f = "alias" -> <<Plain("as"), Tok("q", "moddef", LibModule, {})>>
                                     [] f = "unq" -> <<Plain("."), Plain("{"), Tok("c", "impname", LibValues.c, {}), Plain("}")>>
                                     [] f = "unqalias" -> <<Plain("."), Plain("{"), Tok("c", "impname", LibValues.c, {}), Plain("as"),
-                                                           Tok("d", "impalias", LibValues.c, {}), Plain("}")>>)
+                                                           Tok("d", "impalias", LibValues.c, {}), Plain("}")>>
+                                    [] f = "unqctor" -> <<Plain("."), Plain("{"), Tok("A", "impname", LibValues.A, {}), Plain("}")>>
+                                    [] f = "unqtype" -> <<Plain("."), Plain("{"), Plain("type"), Tok("A", "impname", LibTypeA, {}), Plain("}")>>
+                                    [] f = "typealias" -> <<Plain("."), Plain("{"), Plain("type"), Tok("T", "impname", LibTypeT, {}), Plain("as"),
+                                                            Tok("L", "impalias", LibTypeT, {}), Plain("}")>>)
                /\ phase' = "body"
           /\ UNCHANGED <<frames, pending, budget>>
 
@@ -228,7 +247,7 @@ Step ==
        [] h.s = "ITEMNAME" ->
             /\ Emit(Tok(h.x, "def", ItemBase + h.n, {})) /\ todo' = Rest /\ UNCHANGED <<frames, pending, budget>>
        [] h.s = "PARAMS" ->
-            \E k \in Pick({0, 1, 2} \cup (IF HasType THEN {3} ELSE {})) :
+            \E k \in Pick({0, 1, 2, 3}) :
                /\ todo' = (CASE k = 0 -> <<>> [] k = 1 -> <<NT("BINDER")>> [] k = 2 -> <<NT("BINDER"), T(","), NT("BINDER")>>
                              [] k = 3 -> <<NT("BINDER"), T(":"), NT("TYPEREF")>>) \o Rest
                /\ UNCHANGED <<out, frames, pending, budget>>
@@ -239,10 +258,21 @@ Step ==
        [] h.s = "FIELDALT" -> /\ Emit(Tok(h.x, "fieldalt", TypeBase + h.n, {})) /\ todo' = Rest /\ UNCHANGED <<frames, pending, budget>>
        \* a type annotation: the module's own type T, or the library's type of the same name through the accessor
        [] h.s = "TYPEREF" ->
-            \E q \in Pick(IF Accessor # "" THEN {FALSE, TRUE} ELSE {FALSE}) :
-               /\ out' = IF q THEN out \o <<Tok(Accessor, "tmodref", LibModule, {}), Plain("."), Tok("T", "qtref", LibTypeT, {})>>
-                               ELSE Append(out, Tok("T", "tref", TypeBase, {}))
+            \* an annotation: m1's own type T, an imported type (A, or m2.T under its alias L), the library's T through the
+            \* accessor - or the name A / T when nothing declares it in the TYPE namespace (tg = 0: unresolved; in
+            \* particular `import m2.{A}` imports the constructor only)
+            \E q \in Pick({"T", "A"} \cup (IF Accessor # "" THEN {"acc"} ELSE {}) \cup (IF imp = "typealias" THEN {"L"} ELSE {})) :
+               /\ out' = IF q = "acc" THEN out \o <<Tok(Accessor, "tmodref", LibModule, {}), Plain("."), Tok("T", "qtref", LibTypeT, {})>>
+                               ELSE Append(out, Tok(q, "tref", TypeResolve(q), {}))
                /\ todo' = Rest /\ UNCHANGED <<frames, pending, budget>>
+       [] h.s = "NEEDACC" -> /\ Accessor # "" /\ todo' = Rest /\ UNCHANGED <<out, frames, pending, budget>>
+       [] h.s \in {"QCTORA", "PQCTORA"} ->
+            /\ out' = out \o <<Tok(Accessor, IF h.s = "QCTORA" THEN "modref" ELSE "pmodref", LibModule, {}), Plain("."), Tok("A", "qref", LibValues.A, {})>>
+            /\ todo' = Rest /\ UNCHANGED <<frames, pending, budget>>
+       [] h.s = "UNQCTORA" -> /\ Emit(Tok("A", "ref", Resolve("A"), Visible)) /\ todo' = Rest /\ UNCHANGED <<frames, pending, budget>>
+       [] h.s = "LIBLABEL" -> /\ Emit(Tok(h.x, IF h.n = 0 THEN "label" ELSE "plabel", LibFieldA, {})) /\ todo' = Rest /\ UNCHANGED <<frames, pending, budget>>
+       \* a label of an unqualified `A(a: ..)`: denotes the field only if A is the imported constructor
+       [] h.s = "UNQLIBLABEL" -> /\ Emit(Tok(h.x, "label", IF Resolve("A") = LibValues.A THEN LibFieldA ELSE 0, {})) /\ todo' = Rest /\ UNCHANGED <<frames, pending, budget>>
        [] h.s = "OWNCTOR" -> /\ Emit(Tok(h.x, IF h.n = 0 THEN "ref" ELSE "pref", CtorId(h.x), IF h.n = 0 THEN Visible ELSE {}))
                              /\ todo' = Rest /\ UNCHANGED <<frames, pending, budget>>
        [] h.s = "LABEL" -> /\ Emit(Tok(h.x, IF h.n = 0 THEN "label" ELSE "plabel", TypeBase + (IF h.x = "a" THEN FieldA ELSE FieldB), {}))
@@ -301,7 +331,7 @@ Done == phase = "body" /\ todo = <<>>
 \* Rename (C07): the declaration ids occurring in the program and, for each, the tokens a rename must
 \* rewrite - the declaring token and every occurrence bound to it that is spelled with the declaration's own
 \* name (an occurrence through an import alias keeps its spelling).  Library declarations are declared in m2.
-DeclName(d) == IF d = LibTypeT THEN "T" ELSE IF d = LibValues.a THEN "a" ELSE IF d = LibValues.c THEN "c" ELSE IF d = LibValues.A THEN "A"
+DeclName(d) == IF d = LibTypeT THEN "T" ELSE IF d = LibTypeA THEN "A" ELSE IF d = LibFieldA THEN "a" ELSE IF d = LibValues.a THEN "a" ELSE IF d = LibValues.c THEN "c" ELSE IF d = LibValues.A THEN "A"
                ELSE IF d = LibValues.C THEN "C" ELSE IF d = LibValues.k THEN "k"
                ELSE IF d > ItemBase + FieldB THEN "b" ELSE IF d > ItemBase + FieldA THEN "a"
                ELSE IF d > ItemBase + CtorU THEN "V" ELSE IF d > ItemBase + CtorT THEN "T"
